@@ -562,7 +562,7 @@ def once_and_rng(prog, chk):
             o2 = dict(o)
             chk.obs.append(o2)
     ef = prog.body("svgdx::functions::eval_function")
-    arms = _arms_by_variant(prog.hir[ef.id])
+    arms = {k: prog.hir_expand(v) for k, v in _arms_by_variant(prog.hir[ef.id]).items()}  # an arm that hands over to a new helper: the helper's body counts
     users = [v for v, a in arms.items() if "get_rng" in _called_fns(a)]
     each_occurrence(prog, chk)
     chk.ob(sorted(users) == ["RandInt", "Random"], "A10.rng-arms", "eval_function", ef.where(), "the RNG is drawn from only in the random() and randint() arms, once per evaluation of the call", f"RNG draws in arms {sorted(users)}")
